@@ -1026,7 +1026,9 @@ class Run:
             elif how == 'flip-trailer':
                 pos = len(data) - 1 - arg % 8
             else:
-                pos = 10 + arg % max(1, len(data) - 18)
+                # (independent of the compressed length, which varies by a
+                # byte or two with the digits of the sandbox path)
+                pos = 16 + arg % max(1, min(64, len(data) - 24))
             b = bytearray(data)
             b[pos] ^= 1 << (arg % 8)
             new = bytes(b)
